@@ -544,18 +544,27 @@ func (nz *Normalizer) siteEdit(fset *token.FileSet, s *nfSite) (textEdit, map[st
 	var stmt ast.Stmt
 	var stmtIdx int
 	child := ast.Node(s.call)
+	// operands that are evaluated before the call in the same statement and are not trivially pure are
+	// hoisted into temporaries, in evaluation order (outer levels first), so that the order of calls is kept
+	var hoistLevels [][]ast.Expr
 	for i := len(s.stack) - 1; i >= 0; i-- {
 		p := s.stack[i]
 		if st, ok := p.(ast.Stmt); ok {
 			stmt, stmtIdx = st, i
 			break
 		}
+		var level []ast.Expr
 		switch x := p.(type) {
 		case *ast.ParenExpr, *ast.StarExpr, *ast.TypeAssertExpr:
 		case *ast.SelectorExpr:
 		case *ast.UnaryExpr:
-			if x.Op == token.ARROW || x.Op == token.AND {
-				return textEdit{}, nil, "operand of <- or &"
+			if x.Op == token.ARROW {
+				return textEdit{}, nil, "operand of <-"
+			}
+			if x.Op == token.AND {
+				if _, isLit := ast.Unparen(x.X).(*ast.CompositeLit); !isLit {
+					return textEdit{}, nil, "operand of &"
+				}
 			}
 		case *ast.BinaryExpr:
 			if x.Op == token.LAND || x.Op == token.LOR {
@@ -563,7 +572,7 @@ func (nz *Normalizer) siteEdit(fset *token.FileSet, s *nfSite) (textEdit, map[st
 					return textEdit{}, nil, "right operand of a short-circuit operator"
 				}
 			} else if x.Y == child && !isSimpleExpr(x.X) {
-				return textEdit{}, nil, "evaluation order"
+				level = append(level, x.X)
 			}
 		case *ast.CallExpr:
 			if x.Fun == child {
@@ -572,12 +581,15 @@ func (nz *Normalizer) siteEdit(fset *token.FileSet, s *nfSite) (textEdit, map[st
 			if !isSimpleExpr(x.Fun) {
 				return textEdit{}, nil, "evaluation order"
 			}
+			if x.Ellipsis.IsValid() {
+				return textEdit{}, nil, "variadic spread"
+			}
 			for _, a := range x.Args {
 				if a == child {
 					break
 				}
 				if !isSimpleExpr(a) {
-					return textEdit{}, nil, "evaluation order"
+					level = append(level, a)
 				}
 			}
 			if nres != 1 {
@@ -587,11 +599,48 @@ func (nz *Normalizer) siteEdit(fset *token.FileSet, s *nfSite) (textEdit, map[st
 			if x.X != child || !isSimpleExpr(x.Index) {
 				return textEdit{}, nil, "index"
 			}
+		case *ast.KeyValueExpr:
+			if x.Value != child {
+				return textEdit{}, nil, "call in a literal key"
+			}
+		case *ast.CompositeLit:
+			for _, e := range x.Elts {
+				if e == child {
+					break
+				}
+				v := e
+				if kv, isKV := e.(*ast.KeyValueExpr); isKV {
+					if !isSimpleExpr(kv.Key) {
+						return textEdit{}, nil, "literal key evaluated before the call"
+					}
+					v = kv.Value
+				}
+				if !isSimpleExpr(v) {
+					if _, nested := ast.Unparen(v).(*ast.CompositeLit); nested {
+						return textEdit{}, nil, "nested literal before the call"
+					}
+					level = append(level, v)
+				}
+			}
 		case *ast.ValueSpec, *ast.GenDecl:
 		default:
 			return textEdit{}, nil, fmt.Sprintf("unsupported context %T", p)
 		}
+		if len(level) > 0 {
+			hoistLevels = append(hoistLevels, level)
+		}
 		child = p
+	}
+	var hoists []ast.Expr
+	for i := len(hoistLevels) - 1; i >= 0; i-- {
+		hoists = append(hoists, hoistLevels[i]...)
+	}
+	for _, h := range hoists {
+		if tv, ok := info.Types[h]; !ok || tv.IsType() || tv.Value != nil {
+			return textEdit{}, nil, "evaluation order (operand cannot be hoisted)"
+		} else if _, isTuple := tv.Type.(*types.Tuple); isTuple {
+			return textEdit{}, nil, "evaluation order (tuple operand)"
+		}
 	}
 	if stmt == nil {
 		return textEdit{}, nil, "no enclosing statement (package-level initialiser)"
@@ -1138,15 +1187,42 @@ func (nz *Normalizer) siteEdit(fset *token.FileSet, s *nfSite) (textEdit, map[st
 	}
 	sb.WriteString("\n}\n")
 	pre := sb.String()
+	// operands hoisted in front of the inlined call (see the climb above)
+	type spanRepl struct {
+		s, e int
+		t    string
+	}
+	var hoistRepls []spanRepl
+	if len(hoists) > 0 {
+		var hb strings.Builder
+		for k, h := range hoists {
+			name := fmt.Sprintf("%s_h%d", id, k)
+			fmt.Fprintf(&hb, "%s := %s\n_ = %s\n", name, string(src[off(h.Pos()):off(h.End())]), name)
+			hoistRepls = append(hoistRepls, spanRepl{off(h.Pos()) - off(stmt.Pos()), off(h.End()) - off(stmt.Pos()), name})
+		}
+		pre = hb.String() + pre
+	}
 
 	var out string
 	editEnd := off(stmt.End())
 	stext := string(src[off(stmt.Pos()):off(stmt.End())])
 	cs, ce := off(s.call.Pos())-off(stmt.Pos()), off(s.call.End())-off(stmt.Pos())
+	withRepl := func(repl string) string {
+		rs := append([]spanRepl{{cs, ce, repl}}, hoistRepls...)
+		sort.Slice(rs, func(a, b int) bool { return rs[a].s > rs[b].s })
+		out := stext
+		for _, r := range rs {
+			if r.s < 0 || r.e > len(out) {
+				continue
+			}
+			out = out[:r.s] + r.t + out[r.e:]
+		}
+		return out
+	}
 	switch {
 	case g != nil && g.kind == 1:
 		repl := strings.Join(rtemps, ", ")
-		out = pre + stext[:cs] + repl + stext[ce:]
+		out = pre + withRepl(repl)
 		var used []string
 		for _, n := range g.lhsText {
 			if n != "_" {
@@ -1179,14 +1255,14 @@ func (nz *Normalizer) siteEdit(fset *token.FileSet, s *nfSite) (textEdit, map[st
 				is, ie := off(ifs.Init.Pos())-off(stmt.Pos()), off(ifs.Init.End())-off(stmt.Pos())
 				out = "{\n" + pre + stext[:is] + stext[ie:] + "\n}"
 			} else {
-				out = "{\n" + pre + stext[:cs] + repl + stext[ce:] + "\n}"
+				out = "{\n" + pre + withRepl(repl) + "\n}"
 			}
 		} else if _, isDecl := stmt.(*ast.DeclStmt); isDecl {
-			out = pre + stext[:cs] + repl + stext[ce:]
+			out = pre + withRepl(repl)
 		} else if as, isAs := stmt.(*ast.AssignStmt); isAs && as.Tok == token.DEFINE {
-			out = pre + stext[:cs] + repl + stext[ce:]
+			out = pre + withRepl(repl)
 		} else {
-			out = "{\n" + pre + stext[:cs] + repl + stext[ce:] + "\n}"
+			out = "{\n" + pre + withRepl(repl) + "\n}"
 		}
 	}
 	if elsePos && !strings.HasPrefix(out, "{") {
